@@ -204,7 +204,8 @@ def cwd_history_envs(workdir, seed):
     for name, sd in (("A", seed), ("B", seed + 7)):
         d = os.path.join(workdir, "cwd" + name)
         os.makedirs(d)
-        envs.append((d, make_env(d, sd)))
+        # other names in B: a worker that still lives in A's directory must not find B's relative paths there
+        envs.append((d, make_env(d, sd, tag="" if name == "A" else "b")))
     return envs
 
 
@@ -275,19 +276,19 @@ def run_history_case(case, workdir, rec):
     rec.sample({"history": "Chef(A, 1 atm, parallel).cook(); Chef(X, p, parallel).cook() in one process", "variants": [h[0] for h in HISTORIES]})
 
 
-def make_env(workdir, seed):
+def make_env(workdir, seed, tag=""):
     import amr_kitchen
     env = {}
     d3 = dict(mesh3(), seed=seed)
-    env["p3"], ref3 = build(d3, workdir, "plt00010")
+    env["p3"], ref3 = build(d3, workdir, "plt00010" + tag)
     same = dict(d3, fields=["Zvar", "Y(H2)"], seed=seed + 1, payload="coded")
-    env["p3same"], _ = build(same, workdir, "plt00011")
+    env["p3same"], _ = build(same, workdir, "plt00011" + tag)
     other = dict(same)
     other["layout"] = [{"files": [[0, 2], [1]], "nums": [0, 1]}, {"files": [[1, 2, 0], [3]], "nums": [1, 0]}]
-    env["p3other"], _ = build(other, workdir, "plt00012")
-    env["p2"], _ = build(dict(mesh2(), seed=seed), workdir, "plt00020")
+    env["p3other"], _ = build(other, workdir, "plt00012" + tag)
+    env["p2"], _ = build(dict(mesh2(), seed=seed), workdir, "plt00020" + tag)
     # a damaged copy: last file of level 1 truncated
-    env["p3bad"] = os.path.join(workdir, "plt00013")
+    env["p3bad"] = os.path.join(workdir, "plt00013" + tag)
     shutil.copytree(env["p3"], env["p3bad"])
     victim = os.path.join(env["p3bad"], "Level_1", "Cell_D_00002")
     with open(victim, "r+b") as f:
@@ -295,7 +296,7 @@ def make_env(workdir, seed):
     from . import c11
     from ..refmodel import write_plotfile
     td = c11.thermo_desc(seed, 2)
-    env["pthermo"] = os.path.join(workdir, "plt00030")
+    env["pthermo"] = os.path.join(workdir, "plt00030" + tag)
     write_plotfile(td, env["pthermo"], ref=c11.thermo_ref(td))
     env["recipe"] = os.path.join(workdir, "r.py")
     with open(env["recipe"], "w") as f:
@@ -308,7 +309,7 @@ def make_env(workdir, seed):
           "layouts": {"state": [{"files": [[1], [0]], "nums": [0, 1]}, {"files": [[1], [2, 0]], "nums": [1, 0]}],
                       "gradp": [None, {"files": [[2], [0], [1]], "nums": [0, 1, 2]}],
                       "I_R": [{"files": [[1, 0]], "nums": [0]}, None]}}
-    env["chk"] = os.path.join(workdir, "chk00005")
+    env["chk"] = os.path.join(workdir, "chk00005" + tag)
     chkmodel.write_checkpoint(cd, env["chk"])
     return env
 
